@@ -2102,7 +2102,7 @@ func c17GenSessions(c *ctx) []*c17Sess {
 		}
 		return w, t
 	}
-	// two sessions that end in a client waiting for ever come first (each costs the watchdog's 4 s, in parallel with the rest):
+	// two sessions that end in a client waiting for ever come first (each costs the watchdog's 3 s, in parallel with the rest):
 	// a scripted engine that does not answer a go, and the real engine asked for a move in a finished game
 	{
 		s := &c17Sess{family: "hang"}
